@@ -220,6 +220,12 @@ def _dd(rng):
         dd["%s_%d" % (ch, int(rng.integers(1, 3000)))] = {
             "segregating": (a1, a2), "outgroup_allele": str(rng.choice([a1, a2, "-"])), "context": "-%s-" % a1, "outgroup_context": "---",
             "calls": {"P": (c1[0], 6 - c1[0]), "Q": (c1[1], 4 - c1[1])}}
+    # ordinary missing data: a few SNPs called in fewer chromosomes than any projection used below (3 of P, 2 of Q)
+    for k in range(6):
+        a1, a2 = [str(b) for b in rng.choice(["A", "C", "G", "T"], 2, replace=False)]
+        cp, cq = int(rng.integers(0, 4)), int(rng.integers(0, 3))
+        dd["few_%d" % (5000 + k)] = {"segregating": (a1, a2), "outgroup_allele": a1, "context": "-%s-" % a1, "outgroup_context": "---",
+                                     "calls": {"P": (cp, 3 - cp), "Q": (cq, 2 - cq)}}
     return dd
 
 
@@ -403,6 +409,27 @@ def build(name, argseed, dadi, env):
                 kw["initial_t"] = 0.3
         f = getattr(Integration, fn.split("-")[0])
         return (lambda p, x, t, kw=kw: f(p, x, t, **kw)), [phi, xx, T], {}, dict(layout_args=[0, 1], integrator=True)
+    if name.startswith("Inference.optim-"):
+        # the optimisers on a tiny linear Poisson problem, bounds given as plain lists with the natural lower bound 0 in them: the
+        # caller's start point and bounds lists come back as they went in, and the optimum does not depend on what ran before
+        fn = name.split("-", 1)[1]
+        n = 8
+        i = np.arange(n + 1)
+        mid = (i > 0) & (i < n)
+        B = np.array([np.where(mid, 1 / np.maximum(i, 1), 0), np.where(mid, 1.0, 0)]).T
+        truth = np.array([30.0, 4.0]) * np.exp(rng.uniform(-0.2, 0.2, 2))
+        data = dadi.Spectrum(np.round(B @ truth))
+
+        def mfunc(q, ns, pts, B=B):
+            return dadi.Spectrum(B @ np.asarray(q, float))
+        p0 = [float(v) for v in truth * np.array([1.3, 0.7])]
+        lb, ub = [0, 0.0], [200, 50.0]
+        if int(argseed) == 1:
+            lb = [0.5, 0]
+        kw = dict(verbose=0, maxiter=4, multinom=False)
+        if fn == "opt":
+            return (lambda q, d, lo, hi: Inference.opt(q, d, mfunc, [10], lower_bound=lo, upper_bound=hi, verbose=0, maxeval=25, multinom=False)[0]), [p0, data, lb, ub], {}, F
+        return (lambda q, d, lo, hi, fn=fn: getattr(Inference, fn)(q, d, mfunc, [10], lower_bound=lo, upper_bound=hi, **kw)), [p0, data, lb, ub], {}, F
     if name.startswith("Inference."):
         fn = name.split(".", 1)[1]
         if fn in ("project_up", "project_down"):
@@ -410,6 +437,12 @@ def build(name, argseed, dadi, env):
             if fn == "project_up":
                 return Inference._project_params_up, [[float(v) for v in rng.uniform(0, 1, 2)], fixed], {}, F
             return (lambda p, fx: np.asarray(Inference._project_params_down(p, fx), float)), [[float(v) for v in rng.uniform(0, 1, 4)], fixed], {}, F
+        if fn == "ratio-of-data-spectra":
+            # entries that are 0/0 or x/0 come out masked or non-finite, never as an exception (numpy's error handling is as dadi's
+            # import left it, whatever has run before)
+            a, b = [dadi.Spectrum(np.round(rng.uniform(0, 3, 7)), mask_corners=False) for _ in range(2)]
+            a[0] = b[0] = 0.0
+            return (lambda x, y: [np.asarray(x.data) / np.asarray(y.data), Inference.linear_Poisson_residual(x, y)]), [a, b], {}, F
         shape = tuple(int(v) for v in rng.integers(4, 8, size=int(rng.integers(1, 3))))
         model = dadi.Spectrum(rng.uniform(0.5, 9, shape), mask=rng.random(shape) < 0.1)
         data = dadi.Spectrum(np.round(rng.uniform(0, 9, shape)), mask=rng.random(shape) < 0.1)
@@ -515,7 +548,9 @@ CATALOG = (
                                     "four_pops", "four_pops-frozen", "four_pops-zeroT", "five_pops", "five_pops-zeroT",
                                     "one_pop-zeroT", "two_pops-zeroT", "three_pops-zeroT")]
     + ["Inference." + m for m in ("ll", "ll_multinom", "ll_per_bin", "optimal_sfs_scaling", "optimally_scaled_sfs", "linear_Poisson_residual",
-                                  "Anscombe_Poisson_residual", "project_up", "project_down")]
+                                  "Anscombe_Poisson_residual", "project_up", "project_down",
+                                  "optim-optimize_log_lbfgsb", "optim-optimize_lbfgsb", "optim-optimize_log", "optim-optimize", "optim-optimize_log_fmin", "optim-opt",
+                                  "ratio-of-data-spectra")]
     + ["Godambe." + m for m in ("get_hess", "sum_chi2_ppf", "FIM_uncert", "GIM_uncert", "LRT_adjust", "score_stat", "Wald_stat")]
     + ["LowPass." + m for m in ("partitions", "projection_matrix", "calling_error_matrix", "no_call", "lowpass_model", "cov_dist_model")]
     + ["Misc." + m for m in ("count_data_dict", "fragment_data_dict", "perturb_params")]
@@ -536,7 +571,16 @@ def evaluate(calls, dadi=None, env=None, layout=None, keep_values=False):
             if layout:
                 args = [relayout(a, layout) if i in flags.get("layout_args", []) else a for i, a in enumerate(args)]
             snap = snapshot(args)
-            res = f(*args, **kw)
+            err0 = dict(np.geterr())
+            try:
+                res = f(*args, **kw)
+            finally:
+                # (only a change of which conditions raise can change a later result; ignore <-> warn cannot)
+                err1 = dict(np.geterr())
+                rec["errstate_unchanged"] = all((err0[k] == "raise") == (err1[k] == "raise") for k in err0)
+                if not rec["errstate_unchanged"]:
+                    rec["errstate"] = [err0, dict(np.geterr())]
+                    np.seterr(**err0)
             rec["digest"] = digest(res)
             if keep_values:
                 rec["value"] = res
